@@ -62,7 +62,7 @@ def _find_log_index(f):
             if f <= _log_cache[lastn]:
                 _last_asked = (lastn, f)
                 return lastn
-            elif f <= _log_cache[lastn + 1]:
+            elif lastn + 1 < len(_log_cache) and f <= _log_cache[lastn + 1]:
                 _last_asked = (lastn + 1, f)
                 return lastn + 1
             begin = lastn
